@@ -64,6 +64,10 @@ def gen_cases(tier: str, seed: int) -> list[dict]:
     for sp in range(6):
         for nth in ((0, 1) if tier == "quick" else (0, 1, 2, 3)):
             cases.append({"kind": "relapse", "spec": sp, "nth": nth, "seed": seed})
+    stride = 2
+    for sp in range(len(RELAPSE_ANY_SPECS)):
+        for phase in range(stride):
+            cases.append({"kind": "relapse_any", "spec": sp, "seed": seed, "stride": stride, "phase": phase, "points": 6 if tier == "quick" else 40})
     return cases
 
 
@@ -505,7 +509,134 @@ def _relapse(case: dict) -> dict:
     return {"violations": uniq, "obs": dict(obs), "keys": sorted(keys)}
 
 
+RELAPSE_ANY_SPECS = [lambda: specs.chain(2), lambda: specs.diamond(), lambda: specs.multitask(), lambda: specs.jump_loop(1, 2), lambda: specs.first_of(2), lambda: specs.synthetic(), lambda: specs.or_split(), lambda: specs.failed_continue()]
+
+
+def _relapse_any(case: dict) -> dict:
+    """EVERY message of a FIFO run in turn is being handled by worker W0 when its lock lapses and a second worker
+    polls and handles the same message - at (a sample of) the statement boundaries of W0's handling.  Whatever the
+    message type, the workflow ends as in the reference and nothing but the task body of a RunTask in flight is
+    executed once more."""
+    import json as _json
+    import os
+
+    from .. import interleave as il
+    from ..world import World
+
+    spec = RELAPSE_ANY_SPECS[case["spec"]]()
+    rng = random.Random(case["seed"] * 389 + case["spec"])
+    ref = delivery_run(spec, order="fifo")
+    refc = oracles.exec_counts(ref.ledger)
+    obs: Counter = Counter()
+    keys: set = set()
+    violations: list = []
+    FAR = "2999-01-01T00:00:00+00:00"
+    for k in range(ref.steps):
+        if k % case["stride"] != case["phase"]:
+            continue
+        w = World()
+        cut = None
+        try:
+            w.submit(spec)
+            for _ in range(k):
+                rows = w.eligible(w.rows())
+                if not rows:
+                    break
+                w.deliver(rows[0]["id"])
+            rows = w.eligible(w.rows())
+            if rows:
+                path = os.path.join(il.env.scratch_dir(), f"cut-{os.getpid()}-{random.randrange(1 << 40)}.db")
+                w.store._get_connection().commit()
+                w.copy_db(path)
+                cut = (path, rows[0]["id"], rows[0]["type"], _json.loads(rows[0]["payload"]).get("task_id"), [dict(r) for r in w.ledger])
+        finally:
+            w.close()
+        if cut is None:
+            continue
+        db, row, mtype, task_id, pre = cut
+        try:
+            na = il.solo_length(db, row)
+            points = list(range(0, na + 1))
+            if len(points) > case["points"]:
+                points = sorted(rng.sample(points, case["points"]))
+            for s1 in points:
+                polled: dict = {}
+
+                def mk(world, _polled=polled):
+                    def body() -> None:
+                        c = world.queue._get_connection()
+                        try:
+                            c.execute("UPDATE queue_messages SET locked_until = NULL WHERE id = ?", (row,))
+                            c.execute("UPDATE queue_messages SET locked_until = ? WHERE id != ? AND locked_until IS NULL", (FAR, row))
+                            c.commit()
+                            msg = world.queue.poll_one()
+                            _polled["got"] = msg is not None
+                            if msg is not None:
+                                il.worker_body(world, msg)()
+                        finally:
+                            try:
+                                c.execute("UPDATE queue_messages SET locked_until = NULL WHERE locked_until = ?", (FAR,))
+                                c.commit()
+                            except Exception:
+                                c.rollback()
+
+                    return body
+
+                run, info = il.run_pair(db, [row], il.Segments([("W0", s1), ("W9", 10**6), ("W0", 10**6)]), extra_bodies={"W9": mk}, max_steps=ref.steps * 4 + 100)
+                obs["evaluations"] += 1
+                if run is None:
+                    obs["scheduler_watchdog"] += 1
+                    continue
+                if not polled.get("got"):
+                    obs["second_worker_found_the_row_gone"] += 1
+                    continue
+                obs["same_message_handled_by_two_workers"] += 1
+                keys.add(f"relapse_any:{spec['name']}:{mtype}:{k}:{s1}")
+                if not run.quiescent:
+                    violations.append(viol("C02/same-message-two-workers:not-quiescent", f"{spec['name']}: {mtype} (step {k}) handled by two workers, W0 preempted after {s1}/{na} statements: queue not drained"))
+                    continue
+                a, b = summarize(ref), summarize(run)
+                if a["wf"] != b["wf"] or a["stages"] != b["stages"]:
+                    violations.append(viol(f"C02/same-message-two-workers:outcome-differs:{mtype}", f"{spec['name']}: {mtype} (step {k}) handled by two workers, W0 preempted after {s1}/{na} statements: reference {a['wf']} {a['stages']} vs {b['wf']} {b['stages']}"))
+                tc = oracles.exec_counts(pre + run.ledger)
+                tl = oracles.Timeline(run.audit)
+                in_flight_key = None
+                if mtype == "RunTask" and task_id:
+                    m = tl.meta.get(task_id)
+                    if m:
+                        in_flight_key = (m["owner"], m["name"])
+                for key in set(refc) | set(tc):
+                    r_, t_ = refc.get(key, 0), tc.get(key, 0)
+                    if t_ < r_:
+                        violations.append(viol(f"C02/same-message-two-workers:execution-missing:{mtype}", f"{spec['name']}: {mtype} (step {k}), W0 preempted after {s1}/{na}: {key} executed {t_} times, reference {r_}"))
+                        break
+                    if t_ > r_:
+                        # only the body of the RunTask in flight may run once more
+                        sid_of = {ref_: st_["id"] for ref_, st_ in run.state["stages"].items()}
+                        mine = in_flight_key is not None and sid_of.get(key[0]) == in_flight_key[0] and f"t{key[1]}" == in_flight_key[1] and t_ == r_ + 1
+                        if not mine:
+                            rows_of = {r["stage_id"] for r in run.ledger if r["ref"] == key[0]}
+                            if "<" in str(key[0]) and len(rows_of) > 1 and mtype in ("CompleteStage", "StartStage", "ContinueParentStage"):
+                                # mechanism (DESIGN 10.3 rows 28 / 31): planning of synthetic children is neither claimed nor
+                                # atomic - both handlers of the planning message inserted their own copy of the child
+                                violations.append(viol("C02/synthetic-stage-planned-twice:planning-message-handled-by-two-workers", f"{spec['name']}: {mtype} (step {k}) handled by two workers, W0 preempted after {s1}/{na} statements: synthetic stage {key[0]} exists {len(rows_of)} times and each copy ran ({key} executed {t_} times, reference {r_})"))
+                            else:
+                                violations.append(viol(f"C02/same-message-two-workers:executed-more-often:{mtype}", f"{spec['name']}: {mtype} (step {k}), W0 preempted after {s1}/{na}: {key} executed {t_} times, reference {r_}"))
+                            break
+        finally:
+            os.unlink(db)
+    seen_s = set()
+    uniq = []
+    for x in violations:
+        if x["sig"] not in seen_s:
+            seen_s.add(x["sig"])
+            uniq.append(x)
+    return {"violations": uniq, "obs": dict(obs), "keys": sorted(keys)}
+
+
 def run_case(case: dict) -> dict:
+    if case.get("kind") == "relapse_any":
+        return _relapse_any(case)
     if case.get("kind") == "exhaustive":
         return _exhaustive(case)
     if case.get("kind") == "relapse":
